@@ -115,3 +115,34 @@ PROPS["C03"]["claim"] = {
             "is checked by correspondence against the model and the property oracle on every run and is being proved (Proto/RoundTrip.v); one recorded finding (pointer to a message with empty encoding decodes as nil).",
     "note": "Trusted as C16; map iteration order is the list order of the model (Go's random order is canonicalised by sorting in the harness).",
 }
+
+THRIFT_TB = COMMON_TB + ["Thrift/Model.v: hand-written model of binary.go, compact.go, encode.go, decode.go, struct.go, thrift.go, error.go (writers, readers, struct encoder/decoder, skipping, EOF normalisation, bitsets) tied by correspondence on random struct types built with reflect.StructOf",
+                         "unions, unsigned kinds (the package cannot encode them), message headers, embedded structs and io.Reader behaviour other than a byte slice are outside the model"]
+PROPS["C04"] = {
+    "harness": "c04",
+    "models": ["Thrift/Model.v"],
+    "rule": "hand-picked + seeded random struct types (field ids dense / gaps > 15 / ranges > 64 and > 128 / shuffled declaration order, required/optional/enum options, bools in nested and pointer positions, lists 0..16, sets, maps, nested and pointer-to structs) "
+            "x zero value and boundary-biased values x {binary strict, binary non-strict, compact}: Unmarshal(Marshal(v)) canonicalised vs v; Reset: an Encoder/Decoder first used with another protocol then Reset vs fresh",
+    "nontrivial": nontrivial_default,
+    "trusted_base": THRIFT_TB,
+    "assumptions": ["required pointer fields are set; no nil pointers as list elements / map values; field ids unique; -0.0 and +0.0 are the same value (the package elides zero values by ==)"],
+}
+PROPS["C08"] = {
+    "harness": "c08",
+    "models": ["Thrift/Model.v"],
+    "rule": "for random types/values and the three protocols: the valid encoding, EVERY proper prefix (expected: io.EOF for the empty input, unexpected-EOF class otherwise), a trailing byte (error), the encoding of a wider struct with 1-4 undeclared fields of assorted types and nesting (expected: same value), "
+            "the encoding with a required field removed (MissingField), 10 mutations and random bytes (any outcome but panic/fault/runaway allocation; run under ulimit -v)",
+    "nontrivial": nontrivial_default,
+    "trusted_base": THRIFT_TB,
+    "assumptions": ["allocation is observed by running the harness under an address-space limit, not modelled"],
+    "ulimit_v_kb": 8000000,
+}
+PROPS["C13"] = {
+    "harness": "c13",
+    "models": ["Thrift/Model.v"],
+    "rule": "random types/values without multi-entry maps x three protocols: Marshal bytes vs an independent transcription of the Apache Thrift binary and compact protocol specifications (harness/c04.go specEnc) and vs the Coq model; "
+            "the recorded deviations (binary type codes, 3-byte binary stop field, big-endian compact doubles) are reproduced by the oracle on request so that any other deviation is still reported",
+    "nontrivial": nontrivial_default,
+    "trusted_base": THRIFT_TB + ["the specification oracle is a transcription from memory of thrift-binary-protocol.md / thrift-compact-protocol.md: no Apache Thrift implementation exists on this machine (weakest oracle of the development)"],
+    "assumptions": ["the oracle writes fields in id order and elides the same fields as the package (nil pointers, zero-valued non-required fields)"],
+}
